@@ -110,6 +110,7 @@ pub fn child(args: &[String]) {
 }
 
 pub fn run(_tier: &str) -> Vec<Grid> {
+    vrt::crash::idle(); // waits on child processes, not on a cell
     use std::os::unix::process::ExitStatusExt;
     use std::process::Command;
     let cfg = if cfg!(feature = "cfg_default") { "std" } else { "no_std" };
